@@ -31,6 +31,8 @@ def build(chk):
     chk.assume_note(EOS_ASSUMPTION)
     c_entropy(chk)
     c_findvwLTE(chk)
+    from .common import hydro_frame
+    hydro_frame(chk)
 
 
 def c_entropy(chk):
